@@ -19,9 +19,13 @@ logger = logging.getLogger(__name__)
 # region windows shlex
 is_windows = config.is_windows
 
-DEFAULT_ENCODING = (config.default_cmd_encoding
-                    if config.default_cmd_encoding
-                    else locale.getpreferredencoding(False))
+
+def get_default_encoding():
+    """Get the default cmd encoding in force now, not when first imported."""
+    return (config.default_cmd_encoding
+            if config.default_cmd_encoding
+            else locale.getpreferredencoding(False))
+
 
 # this code is in fact covered when run on windows (during CI)
 # set no cover so no complaining from coverage on posix
@@ -113,7 +117,7 @@ class Command:
         else:
             self.stdout = stdout
             self.stderr = stderr
-        self.encoding = encoding if encoding else DEFAULT_ENCODING
+        self.encoding = encoding if encoding else get_default_encoding()
         self.append = append
 
         self._results: list[SubprocessResult | Exception | list] = []
